@@ -153,6 +153,16 @@ CHECKS['C03'] = (
     'regular expressions) are not modelled; they are covered by the verified checker on explored inputs only.',
     BASE_NOTE + 'contiguous momenta up to l = 11 in generated inputs (positional formats cannot express a gap; letter classes of some readers end at l = 11).', '6/C03')
 
+CHECKS['C11'] = (
+    'Lean 4 theorems about the index-builder and filter models (latest = maximum, sorting keeps the entries, family/role/elements/substring filters are '
+    'exactly the stated conditions and are ANDed) + differential execution of createMetadata and filterEntries against curate.metadata / api.filter_basis_sets',
+    'Proof (on the model): maxStr_is_max, mem_sortDict, filter_family_role, filter_elements, filter_substr, filter_and. Tie: model index = index written by '
+    'create_metadata_file (ordered JSON) on generated directories incl. aliases and planted defects; model filter = real filter on the shipped index. On the '
+    'real data: shipped METADATA.json = its regeneration (all entries except the basis sets emptied in this sandbox), every entry against get_basis / the table '
+    'files present / aliases / auxiliaries / lookup_basis_by_role, enumerations. Partial: index_spec as one theorem about createMetadata is not proved; its '
+    'ingredients are, and C01 covers the composition it relies on.',
+    BASE_NOTE + 'string order of versions.', '6/C11')
+
 NOT_YET = {}
 
 
